@@ -36,7 +36,7 @@ type c19Case struct {
 	Perm   []int           `json:"perm,omitempty"`
 }
 
-var c19Writers = []string{"doc", "doc-pretty", "stream"}
+var c19Writers = []string{"doc", "doc-pretty", "stream", "stream-second-document"}
 
 // XMLText is the XML-hostile text alphabet (characters XML 1.0 cannot carry are excluded).
 var XMLText = []string{"", "a", "<", ">", "&", `"`, "'", "]]>", "<![CDATA[x]]>", "&amp;", "a b", " lead", "trail ", "  ", "\t", "a\nb", "a\rb", "é", "中", "\U0001F600", "<a>b</a>"}
@@ -135,6 +135,16 @@ func c19Write(sel *node.Selection, writer string) (string, error) {
 		return nodeutil.WriteXMLDoc(sel, true)
 	case "stream":
 		return nodeutil.WriteXML(sel)
+	case "stream-second-document":
+		// one writer object writes two documents, the second one is looked at
+		var first, second bytes.Buffer
+		w := nodeutil.NewXMLWtr(&first)
+		if err := sel.InsertInto(w.Node()); err != nil {
+			return "", err
+		}
+		w.Out = &second
+		err := sel.InsertInto(w.Node())
+		return second.String(), err
 	}
 	panic(writer)
 }
